@@ -12,6 +12,7 @@
 #include "valloc.h"
 #include "vpeer.h"
 #include "vs.h"
+#include "orderrace.h"
 #include <stdlib.h>
 #include <string.h>
 #include <unistd.h>
@@ -654,5 +655,12 @@ main(int argc, char **argv)
 	vx_note("alphabet-raw",
 	    "5 letters: p0|p1|p2.write, recv+forward (header naming the origin "
 	    "pipe), send-fresh (empty header); raw and cooked socket");
+	{
+		static const orc_arg OB[] = { { "C09", "bus", nng_bus0_open, nng_bus0_open, 0 },
+			{ "C09", "xbus", nng_bus0_open_raw, nng_bus0_open_raw, 0 } };
+		orc_explore_tiers(&OB[0]);
+		if (vx_is_thorough())
+			orc_explore_tiers(&OB[1]);
+	}
 	return vx_finish();
 }
